@@ -735,6 +735,9 @@ class ProgGen:
             self.nonempty = True
         elif k == "enable_eom_mode":
             self.chans[op["ch"]]["eom"] = True
+            self.chans[op["ch"]]["touched"] = True
+        elif k == "delay":
+            self.chans[op["ch"]]["touched"] = True
         elif k == "disable_eom_mode":
             self.chans[op["ch"]]["eom"] = False
         elif k == "config_detuning_map":
@@ -787,9 +790,34 @@ class ProgGen:
                             "slm_wait": not started, "slm": True}
         self.used_ids.add(pend)
 
+    def _motif_slm_late(self, ch: str) -> None:
+        """A global channel has just received a pulse while another declared global channel is still empty: the SLM
+        mask configured *now* (its DMM pulse is derived from the samples of the global channels so far)."""
+        if "slm-late" not in self.motifs or self.pending or self.slm or self.mappable or self.mode != "ising":
+            return
+        c = self.chans[ch]
+        if c["local"] or c["dmm"]:
+            return
+        if not self.dev.get("supports_slm_mask", self.dev.get("name") in ("MockDevice", "DigitalAnalogDevice")) \
+                or not self._all_dmm_ids():
+            return
+        empty_global = [n for n, d in self.chans.items() if n != ch and not d["local"] and not d["dmm"]
+                        and not d.get("pulsed") and not d.get("touched")]
+        r = self.rng
+        if not empty_global or r.random() >= self.motifs["slm-late"]:
+            return
+        op = {"op": "config_slm_mask", "qubits": r.sample(self.qids, r.randint(1, len(self.qids)))}
+        dm = self._all_dmm_ids()
+        if dm and dm[0] != "dmm_0":
+            op["dmm_id"] = pick(r, dm)
+        self.pending.append(op)
+
     def _slm_started(self, ch: str) -> None:
         c = self.chans[ch]
+        first = not c.get("pulsed")
         c["pulsed"] = True
+        if first:
+            self._motif_slm_late(ch)
         if not c["local"]:
             for d in self.chans.values():
                 if d.get("slm_wait"):
